@@ -46,7 +46,7 @@ CLAIMED = {
             'Abstract interpretation of both MsgPack writers over value/length intervals partitioned at every compared constant, against an '
             'oracle written from the MessagePack specification: format code, length-field width, minimal encoded size, big-endian payload '
             'of the argument itself, oversize => exception, timestamp headers and field layout; twin equality of the two writers; the '
-            'seconds/nanoseconds split of time values decided over linear forms (no overflow, 0 <= ns < 10^9, sec*10^9+ns exact); every Open*Scope of the write scopes emits the header of its own family; the field counter's chaining operators return *this by reference. Exhaustive over the partition cells; payload bit patterns of floats are not decided.',
+            'seconds/nanoseconds split of time values decided over linear forms (no overflow, 0 <= ns < 10^9, sec*10^9+ns exact); every Open*Scope of the write scopes emits the header of its own family; the chaining operators of the field counter return *this by reference. Exhaustive over the partition cells; payload bit patterns of floats are not decided.',
             'decision tables by abstract interpretation over an interval partition, compared with a hand-written spec oracle', '§5 C06'),
     'C07': ('other',
             'Abstract interpretation of both MsgPack readers over the exact domain of all 256 first bytes against an oracle written from the '
